@@ -61,11 +61,8 @@ macro "pfv_tail" md:ident : tactic => `(tactic| (
     congr 1
     · -- quarter
       unfold pfvQuarter
-      rcases q0 with _ | q
-      · rcases $md:ident with ⟨_ | m, dm⟩
-        · rfl
-        · by_cases hm : m = 0 <;> simp [truthy, hm]
-      · rfl
+      rcases $md:ident with ⟨_ | m, dm⟩ <;> rcases q0 with _ | q <;>
+        first | rfl | (by_cases hm : m = 0 <;> simp [truthy, hm])
     · -- tag
       unfold pfvTag
       rcases lookup "tag".toList _ with _ | _ | t <;> rfl))
